@@ -56,7 +56,9 @@ PROPS["C20"] = {
                     "reflect reads unexported array fields faithfully (cross-checked against UnsafeInner / direct access on every read where available)"],
     "post": _c20_post,
     "units": [
-        {"pkg": "curve", "configs": ["default", "purego", "force32bit"],
+        # noavx2: the amd64 build on a CPU without AVX2 takes its own branch of the start-up code
+        # (edwards_vector_amd64.go:init), so the tables it leaves behind are enumerated separately
+        {"pkg": "curve", "configs": ["default", "noavx2", "purego", "force32bit"],
          "tests": {
              "TestC20CurveConstants": LIST(),
              "TestC20Torsion": LIST(),
